@@ -17,7 +17,6 @@ package main
 // is spent under the lock and changes nothing.
 
 import (
-	"context"
 	"fmt"
 	"runtime"
 	"strings"
@@ -41,7 +40,7 @@ type probeFinding struct {
 }
 
 type probeStats struct {
-	requests, blocks, emptyBlocks, failedBlocks, duringSwap int
+	requests, blocks, emptyBlocks, failedBlocks, duringSwap, neverAnswered int
 }
 
 // c02ProbeRound runs one round and returns what the oracle found.
@@ -130,7 +129,13 @@ func c02ProbeRound(rng *h.Rng, kind string, writers, iters int, stretch time.Dur
 		}
 	}
 	atomic.StoreInt32(&stop, 1)
-	wg.Wait()
+	if !c0102WaitGroup(&wg, 4*c0102Deadline) {
+		// a writer is stuck inside Request (the service never returned): nothing of this round can be judged
+		return []probeFinding{{"C01/service-call-never-returned",
+			fmt.Sprintf("%s service: a writer's Request call did not return within %s after the writers were told to stop", kind, 4*c0102Deadline),
+			map[string]any{"stream": "lock-probe", "table": kind, "round": round, "writers": writers, "iterations": iters,
+				"pause_inside_AcquireColumns_us": stretch.Microseconds(), "every_insert_fails": allFail}}}, st, nil
+	}
 	for k := 0; k < 6 && crash == nil; k++ {
 		iterate()
 		if sub.VerifState().Pending == 0 && sub.VerifState().Size == 0 {
@@ -191,15 +196,29 @@ func c02ProbeRound(rng *h.Rng, kind string, writers, iters int, stretch time.Dur
 			where[v] = append(where[v], pos{k, i})
 		}
 	}
+	// every flush iteration has returned, and it completes its promises before it returns: nothing is pending any more.
+	// ONE deadline for the whole round (not one per promise: thousands of promises that are never completed would
+	// otherwise block the run for hours); what is still open when it has passed was open all that time.
+	budget := c0102NewBudget(c0102Deadline)
+	open := 0
 	for w := range perWriter {
 		for _, pr := range perWriter[w] {
 			st.requests++
-			ctx, cancel := context.WithTimeout(context.Background(), 3*time.Second)
-			_, err := pr.p.GetCtx(ctx)
-			cancel()
-			if err == promise.GetContextTimeout {
-				add("C01/promise-never-completed", fmt.Sprintf("%s service: the promise of request %d is still open after the writers stopped and the batch was flushed", kind, pr.req.id),
-					map[string]any{"request": pr.req.id})
+			answered, err := budget.await(pr.p)
+			if !answered {
+				open++
+				if open == 1 {
+					// where its rows went (if anywhere): the block whose outcome it should have been told
+					inBlk := -1
+					if cs := pr.req.colCells(kind, wcol); len(cs) > 0 {
+						if ps := where[cs[0]]; len(ps) > 0 {
+							inBlk = ps[0].blk
+						}
+					}
+					add("C01/promise-never-completed", fmt.Sprintf("%s service, %d concurrent writers, stepped flushes: the promise of request %d is still open %s after the last flush iteration returned (its rows travelled in block %d of %d; every iteration completes its promises before it returns)",
+						kind, writers, pr.req.id, c0102Deadline, inBlk, len(log)),
+						map[string]any{"request": pr.req.id, "rows_found_in_block": inBlk})
+				}
 				continue
 			}
 			resolvedBy := -1 // block whose failure the promise carries
@@ -276,6 +295,7 @@ func c02ProbeRound(rng *h.Rng, kind string, writers, iters int, stretch time.Dur
 			}
 		}
 	}
+	st.neverAnswered = open
 	return finds, st, nil
 }
 
@@ -301,6 +321,7 @@ func c02LockProbe(r *h.Result, rng *h.Rng, rounds, iters int, only string) error
 		r.CountN("lock-probe:blocks-failed", st.failedBlocks)
 		r.CountN("lock-probe:blocks-empty", st.emptyBlocks)
 		r.CountN("lock-probe:requests-issued-while-flusher-in-AcquireColumns", st.duringSwap)
+		r.CountN("lock-probe:requests-never-answered", st.neverAnswered)
 		r.Count("lock-probe:table:" + kind)
 		r.Evaluations += st.requests
 		if i == 0 {
